@@ -10,7 +10,7 @@ CONSTANTS HLEN
 VARIABLES hist, focus, done
 
 Cats == {"new", "login_good", "login_any", "owner_cmd", "any_cmd", "raw_good", "raw_any", "raw_owner",
-         "tun", "tick_small", "tick_edge", "opaque", "owner_data", "login_near", "spoof_data"}
+         "tun", "tick_small", "tick_edge", "opaque", "owner_data", "login_near", "spoof_data", "login_other"}
 
 ActiveSlots == {u \in Slots : active[u]}
 
@@ -18,6 +18,8 @@ Cat(f) ==
     CASE f = "new" -> \E src \in Srcs : Version(src)
       [] f = "login_good" -> \E u \in ActiveSlots : Login(host[u], u, seed[u])
       [] f = "login_near" -> \E u \in ActiveSlots : Login(host[u], u, 0)      \* wrong response from the right address
+      \* the (sniffed) response to ANOTHER live session's current challenge, from the session's own address
+      [] f = "login_other" -> \E u \in ActiveSlots : \E v \in ActiveSlots \ {u} : Login(host[u], u, seed[v])
       [] f = "spoof_data" -> \E u \in ActiveSlots : \E src \in Srcs \ {host[u]} : \E d \in Dests : Data(src, u, d) \/ Ping(src, u)
       [] f = "login_any" -> \E src \in Srcs, uid \in Uids, cl \in Claims : Login(src, uid, cl)
       [] f = "owner_cmd" -> \E u \in ActiveSlots :
